@@ -16,6 +16,7 @@ import (
 func init() { register("C11", checkC11) }
 
 func checkC11(c *Ctx) {
+	defer c11EscapeFastPath(c)
 	c11EscapeTables(c)
 	c11BareKeys(c)
 	c11TraversalSteps(c)
@@ -134,38 +135,14 @@ func c11EscapeTables(c *Ctx) {
 			introArm = cc
 		}
 	}
-	// reader table: switch slice[1]
-	rsw := findSwitchOn(rfd.Body, func(tag ast.Expr) bool {
-		ix, ok := tag.(*ast.IndexExpr)
-		if !ok {
-			return false
-		}
-		v, ok := charConst(rpkg, ix.Index)
-		return ok && v == 1
-	})
-	if rsw == nil {
-		c.CheckerFail("escape", "no switch over the escape selector in ParseStringLiteralToken")
-		return
-	}
+	// reader table, read from SSA (bytedom.go)
 	reader := map[rune]rune{}
 	readerWidth := map[rune]int{}
-	for _, cs := range rsw.Body.List {
-		cc := cs.(*ast.CaseClause)
-		var sels []rune
-		for _, e := range cc.List {
-			if r, ok := charConst(rpkg, e); ok {
-				sels = append(sels, r)
-			}
-		}
-		for _, st := range cc.Body {
-			if es, ok := st.(*ast.AssignStmt); ok && len(es.Rhs) == 1 {
-				if call, ok := es.Rhs[0].(*ast.CallExpr); ok {
-					if bs, ok := appendedBytes(rpkg, call); ok && len(bs) == 1 {
-						for _, s := range sels {
-							reader[s] = bs[0]
-						}
-					}
-				}
+	if rfn := c.P.LookupFunc("hclsyntax", "ParseStringLiteralToken"); rfn != nil {
+		tbl, uni, _ := readerEscapes(c.P, rfn)
+		for k, v := range tbl {
+			if !uni[k] {
+				reader[rune(k)] = rune(v)
 			}
 		}
 	}
@@ -707,4 +684,68 @@ func isLenCall(v ssa.Value) bool {
 	}
 	b, ok := call.Call.Value.(*ssa.Builtin)
 	return ok && b.Name() == "len"
+}
+
+// R7 escape.fastpath: escapeQuotedStringLit returns its input unescaped only after a scan that
+// rejects every byte that needs escaping.
+func c11EscapeFastPath(c *Ctx) {
+	c.Rule("R7 escape.fastpath: every return of hclwrite.escapeQuotedStringLit yields nil or the buffer it builds; a return of the input itself (a conversion of the parameter) is allowed only if the function first scans the input byte by byte and the set of bytes that scan lets pass — computed by interpreting the loop for all 256 byte values — contains none of the bytes that need escaping (control characters, the quote, the backslash, the template introducers $ and %)")
+	fn := c.P.LookupFunc("hclwrite", "escapeQuotedStringLit")
+	if fn == nil || len(fn.Params) != 1 {
+		c.CheckerFail("escape.fastpath", "anchor hclwrite.escapeQuotedStringLit does not resolve")
+		return
+	}
+	c.Fn(FuncName(fn))
+	par := fn.Params[0]
+	var isRaw func(v ssa.Value, d int) bool
+	isRaw = func(v ssa.Value, d int) bool {
+		if d > 6 {
+			return false
+		}
+		switch x := v.(type) {
+		case *ssa.Parameter:
+			return x == par
+		case *ssa.Convert:
+			return isRaw(x.X, d+1)
+		case *ssa.ChangeType:
+			return isRaw(x.X, d+1)
+		case *ssa.Slice:
+			return isRaw(x.X, d+1)
+		case *ssa.Phi:
+			for _, e := range x.Edges {
+				if isRaw(e, d+1) {
+					return true
+				}
+			}
+		}
+		return false
+	}
+	n := 0
+	for _, b := range fn.Blocks {
+		ret, ok := b.Instrs[len(b.Instrs)-1].(*ssa.Return)
+		if !ok || len(ret.Results) != 1 {
+			continue
+		}
+		n++
+		c.Sites++
+		if !isRaw(ret.Results[0], 0) {
+			c.OK("escape.fastpath", FuncName(fn)+":return["+pathName(ret.Results[0])+"]", ret.Pos(), "the escaped buffer (or nil)")
+			continue
+		}
+		key := FuncName(fn) + ":return[raw]"
+		cls, err := loopClass(fn)
+		if err != "" {
+			c.Undecided("escape.fastpath", key, ret.Pos(), "the input is returned unescaped and the scan that justifies it is not decided: "+err)
+			continue
+		}
+		var bad []string
+		for v := 0; v < 256; v++ {
+			if cls[v] && (v < 0x20 || v == '"' || v == '\\' || v == '$' || v == '%') {
+				bad = append(bad, fmt.Sprintf("%q", byte(v)))
+			}
+		}
+		c.Check(len(bad) == 0, "escape.fastpath", key, ret.Pos(), "the scan lets only harmless bytes pass ("+classString(cls)+")",
+			"the input is returned unescaped after a scan that lets "+strings.Join(bad, " ")+" pass: a string containing it is written raw and reads back as a template sequence or not at all")
+	}
+	c.Floor("escape.fastpath returns", n, 1, "the escaped buffer")
 }
